@@ -153,6 +153,101 @@ Example C07_ral_source_example :
 Proof. vm_compute. repeat apply conj; reflexivity. Qed.
 End X11Example.
 
+(* ---- X12: Messages.sol parseVM / verifySignatures / verifyVM / parseAndVerifyVM translated IN FULL (gen/x_solverify.py ->
+   gen/ExtractedSolVerify.v).  src_* are the generated functions over an environment record E (keccak256 and ecrecover as oracles,
+   getGuardianSet / current index / block time as the contract state); None = the call reverts. *)
+From WH Require lib.SolRt gen.ExtractedSolVerify model.Vaa proofs.SolVerifyProofs.
+
+(* the translated verifyVM — with the translated verifySignatures plugged in — IS sol_verifyVM of the theorems above at sigs_valid := the
+   verdict of that verifySignatures: C07_sol_verifyVM_accepts_iff is about ONE function, not two readings of the source *)
+Theorem C07_sol_source_verifyVM_is_sol_verifyVM : forall E vm,
+  let gs := ExtractedSolVerify.e_getGuardianSet E (ExtractedSolVerify.VM_guardianSetIndex vm) in
+  SolVerifyProofs.accepted (ExtractedSolVerify.src_verifyVM E vm) =
+  sol_verifyVM (Z.of_nat (length (ExtractedSolVerify.GuardianSet_keys gs))) (Z.of_nat (length (ExtractedSolVerify.VM_signatures vm)))
+               (ExtractedSolVerify.VM_guardianSetIndex vm) (ExtractedSolVerify.e_curidx E) (ExtractedSolVerify.GuardianSet_expirationTime gs)
+               (ExtractedSolVerify.e_now E)
+               (SolVerifyProofs.accepted (ExtractedSolVerify.src_verifySignatures E (ExtractedSolVerify.VM_hash vm) (ExtractedSolVerify.VM_signatures vm) gs)).
+Proof. exact SolVerifyProofs.src_verifyVM_eq. Qed.
+
+(* the translated signature loop accepts exactly: guardian indices strictly ascending from the SECOND record on (`i == 0 ||`), every
+   index inside the key list, every recovered address equal to the key at its index; the first record that breaks the order or points
+   outside the key list reverts the call (array bounds panic: the source has no explicit bound test), a wrong signer returns (false, _) *)
+Theorem C07_sol_source_verifySignatures_accepts_iff : forall E h sigs gs,
+  (exists r, ExtractedSolVerify.src_verifySignatures E h sigs gs = Some (true, r)) <->
+  SolVerifyProofs.ascending (List.map ExtractedSolVerify.Signature_guardianIndex sigs) /\
+  List.Forall (SolVerifyProofs.sig_valid E h (ExtractedSolVerify.GuardianSet_keys gs)) sigs.
+Proof. exact SolVerifyProofs.src_verifySignatures_accepts_iff. Qed.
+
+Theorem C07_sol_source_verifySignatures_outcomes : forall E h gs pre s post,
+  SolVerifyProofs.ascending (List.map ExtractedSolVerify.Signature_guardianIndex pre) ->
+  List.Forall (SolVerifyProofs.sig_valid E h (ExtractedSolVerify.GuardianSet_keys gs)) pre ->
+  let gi := ExtractedSolVerify.Signature_guardianIndex s in
+  let ordered := match pre with nil => True | _ => ExtractedSolVerify.Signature_guardianIndex (List.last pre ExtractedSolVerify.zero_Signature) < gi end in
+  (~ ordered -> ExtractedSolVerify.src_verifySignatures E h (pre ++ s :: post) gs = None) /\
+  (ordered -> List.nth_error (ExtractedSolVerify.GuardianSet_keys gs) (Z.to_nat gi) = None ->
+     ExtractedSolVerify.src_verifySignatures E h (pre ++ s :: post) gs = None) /\
+  (ordered -> forall k, List.nth_error (ExtractedSolVerify.GuardianSet_keys gs) (Z.to_nat gi) = Some k -> SolVerifyProofs.sig_signer E h s <> k ->
+     ExtractedSolVerify.src_verifySignatures E h (pre ++ s :: post) gs = Some (false, SolVerifyProofs.reason_signature_invalid)).
+Proof. exact SolVerifyProofs.src_verifySignatures_outcomes. Qed.
+
+(* the statement's sentence on the contract's real entry point: a wire VAA produced by the node's Marshal goes through the translated
+   parseAndVerifyVM exactly when the set it names is non-empty and current or unexpired, the NODE's quorum for that set's size is met,
+   the guardian indices are strictly ascending and every signature recovers — over the digest the node signs — the key at its index;
+   hence an accepted VAA carries at least quorum many pairwise DISTINCT signers and one with fewer is never accepted *)
+Theorem C07_sol_source_accepts_iff : forall E v,
+  Vaa.wf v -> SolVerifyProofs.fits_memory (Vaa.marshal v) -> List.Forall SolVerifyProofs.recid_ok (Vaa.sigs v) ->
+  let gs := ExtractedSolVerify.e_getGuardianSet E (Vaa.gsidx v) in
+  let n := Z.of_nat (length (ExtractedSolVerify.GuardianSet_keys gs)) in
+  (SolVerifyProofs.accepted3 (ExtractedSolVerify.src_parseAndVerifyVM E (Vaa.marshal v)) = true <->
+   n <> 0 /\ (Vaa.gsidx v = ExtractedSolVerify.e_curidx E \/ ExtractedSolVerify.e_now E <= ExtractedSolVerify.GuardianSet_expirationTime gs) /\
+   go_quorum n <= Z.of_nat (length (Vaa.sigs v)) /\ SolVerifyProofs.ascending (List.map Vaa.s_idx (Vaa.sigs v)) /\
+   List.Forall (fun s => SolVerifyProofs.sig_valid E (Vaa.digest (ExtractedSolVerify.e_keccak256 E) v) (ExtractedSolVerify.GuardianSet_keys gs)
+                           (SolVerifyProofs.sig_of_go s)) (Vaa.sigs v)) /\
+  (SolVerifyProofs.accepted3 (ExtractedSolVerify.src_parseAndVerifyVM E (Vaa.marshal v)) = true ->
+   List.NoDup (List.map Vaa.s_idx (Vaa.sigs v)) /\ go_quorum n <= Z.of_nat (length (List.map Vaa.s_idx (Vaa.sigs v)))).
+Proof.
+  intros E v W M R gs n. split; [apply SolVerifyProofs.sol_source_accepts_iff; assumption|].
+  apply SolVerifyProofs.sol_source_accepted_has_quorum_of_distinct_signers; assumption.
+Qed.
+
+Theorem C07_sol_source_parseAndVerifyVM_composes : forall E bs,
+  ExtractedSolVerify.src_parseAndVerifyVM E bs =
+  match ExtractedSolVerify.src_parseVM E bs with
+  | None => None
+  | Some vm => match ExtractedSolVerify.src_verifyVM E vm with None => None | Some (valid, reason) => Some (vm, valid, reason) end
+  end.
+Proof. exact SolVerifyProofs.src_parseAndVerifyVM_eq. Qed.
+
+Module X12Example.
+Import Coq.Strings.String List ListNotations Coq.Strings.Byte Vaa ExtractedSolVerify SolVerifyProofs.
+(* toy oracles: keccak256 = first 32 bytes of the input padded with zeros; the "signer" of (hash, v, r, s) is the first 20 bytes of r when
+   the hash is 32 bytes long *)
+Definition toy_keccak (b : list byte) : list byte := firstn 32 (b ++ repeat x00 32).
+Definition E3 : SolEnv :=
+  {| e_keccak256 := toy_keccak; e_ecrecover := fun h _ r _ => if (List.length h =? 32)%nat then firstn 20 r else SolRt.zero_address;
+     e_getGuardianSet := fun i => if i =? 3 then {| GuardianSet_keys := [repeat x11 20; repeat x22 20; repeat x33 20; repeat x44 20]; GuardianSet_expirationTime := 0 |}
+                                  else if i =? 2 then {| GuardianSet_keys := [repeat x11 20]; GuardianSet_expirationTime := 40 |} else zero_GuardianSet;
+     e_curidx := 3; e_now := 50 |}.
+Definition sg (i : Z) (b : byte) : sig := {| s_idx := i; s_data := repeat b 64 ++ [x01] |}.
+Definition v (idx : Z) (ss : list sig) : vaa :=
+  {| version := 1; gsidx := idx; sigs := ss; ts := 1700000000; tns := 0; nonce := 7; echain := 5; tchain := 2; eaddr := repeat xab 32;
+     seq := 42; cl := 1; payload := [x07] |}.
+Definition verdict (x : vaa) := option_map (fun r => snd (fst r)) (src_parseAndVerifyVM E3 (marshal x)).
+Example C07_sol_source_example :
+  (* hypotheses of C07_sol_source_accepts_iff hold for the accepted VAA *)
+  wfb (v 3 [sg 0 x11; sg 2 x33; sg 3 x44]) = true /\ fits_memory (marshal (v 3 [sg 0 x11; sg 2 x33; sg 3 x44])) /\
+  forallb (fun s => Bytes.unbe (skipn 64 (s_data s)) + 27 <? 2 ^ 8) [sg 0 x11; sg 2 x33; sg 3 x44] = true /\
+  (* 3 of 4 ascending: accepted; 2 of 4: "no quorum" *)
+  verdict (v 3 [sg 0 x11; sg 2 x33; sg 3 x44]) = Some true /\ verdict (v 3 [sg 0 x11; sg 2 x33]) = Some false /\
+  (* one guardian three times / descending order: revert; a key of another slot: (false, "VM signature invalid"); index = number of keys: revert *)
+  verdict (v 3 [sg 0 x11; sg 0 x11; sg 0 x11]) = None /\ verdict (v 3 [sg 2 x33; sg 0 x11; sg 3 x44]) = None /\
+  verdict (v 3 [sg 0 x11; sg 1 x33; sg 3 x44]) = Some false /\ verdict (v 3 [sg 0 x11; sg 2 x33; sg 4 x44]) = None /\
+  (* an expired earlier set; an unknown set *)
+  verdict (v 2 [sg 0 x11]) = Some false /\ verdict (v 9 [sg 0 x11]) = Some false /\
+  option_map snd (src_parseAndVerifyVM E3 (marshal (v 2 [sg 0 x11]))) = Some "guardian set has expired"%string.
+Proof. vm_compute. repeat apply conj; reflexivity. Qed.
+End X12Example.
+
 Print Assumptions C07_go_formula.
 Print Assumptions C07_go_no_overflow.
 Print Assumptions C07_contracts_agree.
@@ -165,3 +260,8 @@ Print Assumptions C07_intersection.
 Print Assumptions C07_ral_source_is_the_hand_model.
 Print Assumptions C07_ral_source_accepts_iff.
 Print Assumptions C07_ral_source_decision_is_parse_and_verify.
+Print Assumptions C07_sol_source_verifyVM_is_sol_verifyVM.
+Print Assumptions C07_sol_source_verifySignatures_accepts_iff.
+Print Assumptions C07_sol_source_verifySignatures_outcomes.
+Print Assumptions C07_sol_source_accepts_iff.
+Print Assumptions C07_sol_source_parseAndVerifyVM_composes.
